@@ -157,7 +157,9 @@ def gen_chain(rng, opts=None):
             r2 = {"dir": 0.4, "clash": 0.55}[force]
         if r2 < 0.3 and not common["lstrip_paths"]:
             # an explicit list of paths; the first one does not exist (yet): it is skipped, the others are still recorded
-            common["paths"] = ["dist-later", "src", "README"]
+            # (one of them is a directory whose name merely BEGINS like a scheme: `files` is a plain path, not `file:s`)
+            spec["files"] = ("d", {"list.txt": ("f", b"a\nb\n")})
+            common["paths"] = ["dist-later", "src", "README", "files"]
         elif r2 < 0.5 and not common["lstrip_paths"]:
             # a whole directory recorded as ONE artifact (dir:), with a linked directory inside whose target lies outside
             # it: recording follows the link, so the target's files are covered by the digest
